@@ -44,6 +44,7 @@ type envState struct {
 	wg             map[*value]int64
 	clock          int64
 	mapOrderNondet bool
+	hangGuard      bool // vNoHang(true): running out of steps is a hang of the code under test
 	inSpawn    bool
 	sleepBudget int
 }
